@@ -92,9 +92,21 @@ func verifC11Input(label string) string {
 
 // formatPath is total and equals the specified normal form.
 func verifHarness_C11_formatPath() {
-	r := New()
 	strict := verifChoice("strict", 2) == 1
-	r.strictLastSlash = strict
+	// the normal form does not depend on any other option
+	var opts []func(*Router)
+	if strict {
+		opts = append(opts, StrictLastSlash)
+	}
+	switch verifChoice("otherOption", 4) {
+	case 1:
+		opts = append(opts, UseEncodedPath)
+	case 2:
+		opts = append(opts, EnableCaching, HandleMethodNotAllowed)
+	case 3:
+		opts = append(opts, HandleFallbackRoute)
+	}
+	r := New(opts...)
 	p := verifC11Input("p")
 	var q string
 	k := verifCatch(func() { q = r.formatPath(p) })
